@@ -31,9 +31,9 @@ func init() {
 				a string
 				n int
 			}
-			spaces := []sp{{"full", 4}, {"paren", 7}, {"range", 7}, {"unary", 7}, {"bool", 7}, {"cmp", 7}}
+			spaces := []sp{{"full", 4}, {"paren", 7}, {"range", 7}, {"unary", 7}, {"bool", 7}, {"cmp", 7}, {"like", 7}}
 			if tier == "thorough" {
-				spaces = []sp{{"full", 5}, {"paren", 10}, {"range", 8}, {"unary", 8}, {"bool", 9}, {"cmp", 8}}
+				spaces = []sp{{"full", 5}, {"paren", 10}, {"range", 8}, {"unary", 8}, {"bool", 9}, {"cmp", 8}, {"like", 8}}
 			}
 			var us []core.Unit
 			for _, s := range spaces {
@@ -53,7 +53,7 @@ func init() {
 		},
 		Eval:   c06Eval,
 		Shrink: shrinkTokens,
-		Rule: "TOK(Σ_full,N) ∪ TOK(Σ_k,N_k) for five focused alphabets ∪ EDIT(k) of tree renderings, each x {no default field, default field D}; " +
+		Rule: "TOK(Σ_full,N) ∪ TOK(Σ_k,N_k) for six focused alphabets ∪ EDIT(k) of tree renderings, each x {no default field, default field D}; " +
 			"every accepted input's tree is checked against the token sequence by the derivation matcher; non-trivial = Parse accepted; distinct = distinct accepted trees",
 		Assumptions: []string{
 			"the matcher accepts any derivation in the (ambiguous) documented grammar and is lenient where it is silent: parenthesised distance/power, mixed [ } range brackets, = for :",
@@ -182,6 +182,14 @@ func (d *deriver) fieldSpan(v any, i, k int) bool {
 	return k-i == 1 && d.fieldMatches(v, i)
 }
 
+// termSpan: a leaf laid over tokens [a,b): one term token, possibly inside redundant parentheses.
+func (d *deriver) termSpan(e *expr.Expression, a, b int) bool {
+	for b-a >= 3 && d.toks[a] == "(" && d.toks[b-1] == ")" {
+		a, b = a+1, b-1
+	}
+	return b-a == 1 && d.leafMatches(e, a)
+}
+
 // argSpan: a distance / power laid over tokens [a,b): one number, possibly parenthesised.
 func (d *deriver) argSpan(e *expr.Expression, a, b int) bool {
 	for b-a >= 3 && d.toks[a] == "(" && d.toks[b-1] == ")" {
@@ -271,22 +279,38 @@ func (d *deriver) derives1(e *expr.Expression, i, j int) bool {
 		return false
 	case expr.Range:
 		b, ok := e.Right.(*expr.RangeBoundary)
-		if !ok || b == nil || j-i < 7 || T[j-3] != "TO" {
+		if !ok || b == nil || j-i < 7 {
 			return false
 		}
-		open, cl := T[j-5], T[j-1]
-		if (open != "[" && open != "{") || (cl != "]" && cl != "}") || T[j-6] != ":" || !d.fieldSpan(e.Left, i, j-6) {
-			return false
-		}
-		if open == "[" && cl == "]" && !b.Inclusive {
-			return false
-		}
-		if open == "{" && cl == "}" && b.Inclusive {
+		cl := T[j-1]
+		if cl != "]" && cl != "}" {
 			return false
 		}
 		lo, ok1 := b.Min.(*expr.Expression)
 		hi, ok2 := b.Max.(*expr.Expression)
-		return ok1 && ok2 && d.leafMatches(lo, j-4) && d.leafMatches(hi, j-2)
+		if !ok1 || !ok2 {
+			return false
+		}
+		// f : [ lo TO hi ]  — each bound a single term, possibly inside redundant parentheses (the
+		// code's grammar comment reads (E) as an E)
+		for o := i + 2; o < j-4; o++ {
+			open := T[o]
+			if (open != "[" && open != "{") || T[o-1] != ":" || !d.fieldSpan(e.Left, i, o-1) {
+				continue
+			}
+			if open == "[" && cl == "]" && !b.Inclusive {
+				continue
+			}
+			if open == "{" && cl == "}" && b.Inclusive {
+				continue
+			}
+			for k := o + 2; k < j-2; k++ {
+				if T[k] == "TO" && d.termSpan(lo, o+1, k) && d.termSpan(hi, k+1, j-1) {
+					return true
+				}
+			}
+		}
+		return false
 	case expr.In:
 		r, ok := e.Right.(*expr.Expression)
 		if !ok || r == nil || r.Op != expr.List || j-i < 5 {
